@@ -641,6 +641,8 @@ def gen_query(rng, depth=0, ctes=None):
     gcols = [g.col() for _ in range(r.randrange(1, 3))] if grouped else []
     ordinal_keys = []  # GROUP BY <position>: keys that are constants keep their ordinal through qualification
     by_ordinal = grouped and not sel and r.random() < 0.35
+    # DISTINCT ON a group key that is also projected and ordered by: three clauses referring to one projection
+    distinct_on = grouped and not by_ordinal and not sel and r.random() < 0.2
     for i in range(r.randrange(1, 4) if not by_ordinal else r.randrange(2, 5)):
         name = "k%d" % i
         if by_ordinal:
@@ -654,8 +656,8 @@ def gen_query(rng, depth=0, ctes=None):
             else:
                 e, ty = "%s(%s)" % (r.choice(["SUM", "MAX", "COUNT", "MIN"]), g.col("INT")), "INT"
         elif grouped:
-            if r.random() < 0.5:
-                e, ty = r.choice(gcols), "INT"
+            if r.random() < 0.5 or (distinct_on and i == 0):
+                e, ty = (gcols[0] if distinct_on and i == 0 else r.choice(gcols)), "INT"
             else:
                 e, ty = "%s(%s)" % (r.choice(["SUM", "MAX", "COUNT", "MIN"]), g.col("INT")), "INT"
         else:
@@ -675,7 +677,8 @@ def gen_query(rng, depth=0, ctes=None):
                 e, ty = g.cond(4), "BOOLEAN"
         sel.append("%s AS %s" % (e, name))
         out_cols[name] = ty
-    sql = "SELECT " + ("DISTINCT " if r.random() < 0.1 else "") + ", ".join(sel) + " FROM " + froms[0]
+    head = "DISTINCT ON (%s) " % gcols[0] if distinct_on else ("DISTINCT " if r.random() < 0.1 else "")
+    sql = "SELECT " + head + ", ".join(sel) + " FROM " + froms[0]
     seen = {}
     first_al = froms[0].rsplit(" AS ", 1)[1]
     seen[first_al] = visible[first_al]
@@ -707,7 +710,9 @@ def gen_query(rng, depth=0, ctes=None):
         sql += " GROUP BY " + ", ".join(gcols)
         if r.random() < 0.4:
             sql += " HAVING %s(%s) > %d" % (r.choice(["SUM", "COUNT", "MAX"]), g.col("INT"), r.randrange(3))
-    if r.random() < 0.25:
+    if distinct_on:
+        sql += " ORDER BY " + gcols[0] + r.choice(["", " DESC"])
+    elif r.random() < 0.25:
         sql += " ORDER BY " + r.choice(["1", sorted(out_cols)[0]] if not sel[0].endswith("*") else [g.col()]) + r.choice(["", " DESC"])
     if r.random() < 0.15:
         sql += " LIMIT %d" % r.randrange(1, 20)
